@@ -500,28 +500,57 @@ class Prop:
         return None
 
 
+def _safe(fn, default, *args):
+    """a judging / classifying helper of a check must not crash the check on an observation it does not expect"""
+    try:
+        return fn(*args)
+    except Exception:      # noqa: BLE001
+        return default
+
+
 def _eval_cases(prop, ctx, items, tag):
-    """items: list of (case, impl). Returns (corr_flags, fail_codes) lists or (None, None, log) on failure"""
+    """items: list of (case, impl). Returns (corr_flags, fail_codes) lists or (None, None, log) on failure.
+    A case whose observation cannot be written as a literal (the implementation returned something outside
+    the shape the harness observes: the printer raises) counts as a correspondence mismatch and is judged by
+    the Python mirror oracle, instead of crashing the check."""
+    rendered, bad = [], {}
+    for idx, (c, i) in enumerate(items):
+        try:
+            rendered.append((idx, prop.coq_case(c, i)))
+        except Exception as exc:       # noqa: BLE001 - any printer failure is data, not a crash
+            try:
+                code = prop.python_oracle(c, i) or 0
+            except Exception:          # noqa: BLE001
+                code = 0
+            bad[idx] = code
+            if len([n for n in ctx.notes if n.startswith('unprintable observation')]) < 3:
+                ctx.notes.append('unprintable observation (%s: %s) on input %s' % (
+                    type(exc).__name__, str(exc)[:120], json.dumps(prop.describe(c), default=str)[:300]))
     files = []
-    for k in range(0, len(items), prop.shard):
-        chunk = items[k:k + prop.shard]
+    for k in range(0, len(rendered), prop.shard):
+        chunk = rendered[k:k + prop.shard]
         path = os.path.join(ctx.work, 'cases_%s_%d.v' % (tag, k // prop.shard))
         with open(path, 'w') as fh:
             fh.write(prop.case_requires + '\nImport ListNotations.\nOpen Scope Z_scope.\n')
             fh.write('Definition cases : list %s := [\n' % prop.case_type)
-            fh.write(';\n'.join(prop.coq_case(c, i) for c, i in chunk))
+            fh.write(';\n'.join(text for _, text in chunk))
             fh.write('\n].\n')
             fh.write('Eval vm_compute in (map (fun c => if %s c then 0%%nat else 1%%nat) cases).\n' % prop.corr_fn)
             fh.write('Eval vm_compute in (map %s cases).\n' % prop.fail_fn)
-        files.append((path, len(chunk)))
+        files.append((path, [idx for idx, _ in chunk]))
     outs = run_case_files([p for p, _ in files])
-    corr, fail = [], []
-    for (path, n), (_, rc, out) in zip(files, outs):
+    corr, fail = [0] * len(items), [0] * len(items)
+    for (path, idxs), (_, rc, out) in zip(files, outs):
         lists = parse_nat_lists(out)
+        n = len(idxs)
         if rc != 0 or len(lists) != 2 or len(lists[0]) != n or len(lists[1]) != n:
             return None, None, 'coqc %s rc=%s\n%s' % (path, rc, out[-3000:])
-        corr += lists[0]
-        fail += lists[1]
+        for j, idx in enumerate(idxs):
+            corr[idx] = lists[0][j]
+            fail[idx] = lists[1][j]
+    for idx, code in bad.items():
+        corr[idx] = 1
+        fail[idx] = code
     return corr, fail, ''
 
 
@@ -590,9 +619,15 @@ def run_prop(prop, ctx):
         items = []
         for c in cases:
             with contextlib.redirect_stdout(io.StringIO()):
-                impl = prop.run_impl(c)
+                try:
+                    impl = prop.run_impl(c)
+                except Exception as exc:   # noqa: BLE001 - the driver itself failed on what the implementation did
+                    impl = {'harness_exception': '%s: %s' % (type(exc).__name__, str(exc)[:200])}
+                    if len([n for n in ctx.notes if n.startswith('driver raised')]) < 3:
+                        ctx.notes.append('driver raised %s on input %s' % (impl['harness_exception'],
+                                                                           json.dumps(prop.describe(c), default=str)[:300]))
             items.append((c, impl))
-            ctx.count(prop.describe(c), cls=prop.case_class(c, impl), nontrivial=prop.nontrivial(c, impl),
+            ctx.count(prop.describe(c), cls=_safe(prop.case_class, None, c, impl), nontrivial=_safe(prop.nontrivial, True, c, impl),
                       sample=prop.describe(c))
         if model_ok:
             corr, fail, elog = _eval_cases(prop, ctx, items, '%s%d' % (tag, tag_i))
@@ -603,7 +638,7 @@ def run_prop(prop, ctx):
         if model_ok:
             for (c, i), cf, fc in zip(items, corr, fail):
                 if fc == 0:
-                    fc = prop.extra_fail(c, i) or 0
+                    fc = _safe(prop.extra_fail, 0, c, i) or 0
                 if fc != 0:
                     # a failing case is covered by a known finding only while the implementation
                     # still behaves exactly as the model of the analysed defect predicts (cf == 0)
@@ -612,10 +647,10 @@ def run_prop(prop, ctx):
                     mismatching.append((c, i))
         else:
             for c, i in items:
-                fc = prop.python_oracle(c, i) or prop.extra_fail(c, i)
+                fc = _safe(prop.python_oracle, 0, c, i) or _safe(prop.extra_fail, 0, c, i)
                 if fc:
                     failing.append((c, i, fc))
-        unlisted = [f for f in failing if f[2] < 0 or not prop.known_class(*f)]
+        unlisted = [f for f in failing if f[2] < 0 or not _safe(prop.known_class, None, *f)]
         need_more = (ctx.broken or mismatching) and not unlisted
         if need_more and not done_extended:
             done_extended = True
@@ -632,7 +667,7 @@ def run_prop(prop, ctx):
     reported = set()
     new_fail = []
     for c, i, code in failing:
-        cls = prop.known_class(c, i, code) if code > 0 else None
+        cls = _safe(prop.known_class, None, c, i, code) if code > 0 else None
         code = abs(code)
         entry = None
         if cls:
